@@ -18,16 +18,20 @@ NoQ == [on |-> FALSE, kind |-> "fn", cand |-> {}, vis |-> {}, tids |-> {}, resp 
 NoP == [on |-> FALSE, started |-> FALSE, tids |-> {}, acks |-> 0, errs |-> 0]
 NoC == [on |-> FALSE, kind |-> "fn", nodes |-> {}]
 
+\* rt: the peers in the node's routing table (the bootstrap-time content, plus every peer whose answer was accepted
+\* without yielding a value: core/handle_response.rs adds the responder at the end, value answers return before that)
 Init == s = [tid |-> 0, infl |-> {}, q |-> NoQ, p |-> NoP, cache |-> NoC,
              gs |-> {}, ps |-> {}, mbox |-> <<>>, called |-> {},
-             done |-> [c \in Calls |-> "pending"], outcomes |-> [c \in Calls |-> 0], net |-> {}]
+             done |-> [c \in Calls |-> "pending"], outcomes |-> [c \in Calls |-> 0], net |-> {}, rt |-> Boot, cap |-> 0]
 
 RECURSIVE SendAll(_, _, _)
 SendAll(st, D, kind) ==
   IF D = {} THEN [st |-> st, tids |-> {}]
-  ELSE LET d == CHOOSE x \in D : TRUE
+  ELSE LET d == CHOOSE x \in D : \A y \in D : Dist[x] <= Dist[y]   \* closest first (visit_closest / PutQuery::start order)
            st1 == [st EXCEPT !.tid = st.tid + 1,
                              !.infl = st.infl \cup {[tid |-> st.tid, to |-> d, age |-> 0]},
+                             \* Vec::push: a full vector doubles (first allocation: 4)
+                             !.cap = IF Cardinality(st.infl) = st.cap THEN (IF st.cap = 0 THEN 4 ELSE 2 * st.cap) ELSE st.cap,
                              !.net = st.net \cup {[dir |-> "req", tid |-> st.tid, peer |-> d, kind |-> kind]}]
            r == SendAll(st1, D \ {d}, kind)
        IN [st |-> r.st, tids |-> r.tids \cup {st.tid}]
@@ -38,7 +42,7 @@ CacheUsable(st) == st.cache.on /\ st.cache.nodes # {} /\ (FixTokenFilter => st.c
 \* Actor::get: piggy-back on the active query (whatever its kind) or create one
 DoGet(st, kind) ==
   IF st.q.on THEN st
-  ELSE LET cand == Boot \cup (IF CacheUsable(st) THEN st.cache.nodes ELSE {})
+  ELSE LET cand == st.rt \cup (IF CacheUsable(st) THEN st.cache.nodes ELSE {})
            r == SendAll(st, Closest(cand), kind)
        IN [r.st EXCEPT !.q = [on |-> TRUE, kind |-> kind, cand |-> cand, vis |-> Closest(cand),
                               tids |-> r.tids, resp |-> {}]]
@@ -66,16 +70,29 @@ HandleApi(st) ==
                           ELSE r.st
                   ELSE DoGet(st1, "get")
 
-Tick(st0, input) ==
-  LET matched == input.dir # "timeout" /\ \E i \in st0.infl : i.tid = input.tid /\ i.to = input.peer
-      st1 == IF matched THEN [st0 EXCEPT !.infl = {i \in st0.infl : i.tid # input.tid}] ELSE st0
+\* socket.rs InflightRequests::cleanup, run at the start of every recv_from: only when the vector is full are the expired
+\* requests (a prefix: requests are sorted by send time) dropped; until then a late reply to an expired request is still accepted
+Cleanup(st) == IF st.cap > 0 /\ Cardinality(st.infl) >= st.cap THEN [st EXCEPT !.infl = {i \in st.infl : i.age < MaxAge}] ELSE st
+
+Tick(stIn, input) ==
+  LET st0 == Cleanup(stIn)
+      \* socket.rs is_expected_response: the request is still in the table and was sent to the sender's address; it is consumed
+      \* (its age feeds the round-trip estimate), but only a reply to an UNEXPIRED request is handed to the core (C09: an expired
+      \* transaction id has no effect).  Expired entries otherwise stay until Cleanup.
+      hit == input.dir # "timeout" /\ \E i \in st0.infl : i.tid = input.tid /\ i.to = input.peer
+      matched == input.dir # "timeout" /\ \E i \in st0.infl : i.tid = input.tid /\ i.to = input.peer /\ i.age < MaxAge
+      st1 == IF hit THEN [st0 EXCEPT !.infl = {i \in st0.infl : i.tid # input.tid}] ELSE st0
+      isResp == input.kind # "e"
       st2 == IF ~matched THEN st1
              ELSE IF st1.p.on /\ input.tid \in st1.p.tids
                   THEN IF input.kind = "ack" THEN [st1 EXCEPT !.p.acks = st1.p.acks + 1]
-                       ELSE [st1 EXCEPT !.p.errs = st1.p.errs + 1]
+                       ELSE IF input.kind = "e" THEN [st1 EXCEPT !.p.errs = st1.p.errs + 1]
+                       ELSE st1                                   \* any other answer to a write request is ignored
              ELSE IF st1.q.on /\ input.tid \in st1.q.tids
-                  THEN [st1 EXCEPT !.q.cand = st1.q.cand \cup Knows[input.peer],
-                                   !.q.resp = IF input.kind = "tok" THEN st1.q.resp \cup {input.peer} ELSE st1.q.resp]
+                  THEN [st1 EXCEPT !.q.cand = IF isResp THEN st1.q.cand \cup Knows[input.peer] ELSE st1.q.cand,
+                                   !.q.resp = IF input.kind \in {"tok", "val"} THEN st1.q.resp \cup {input.peer} ELSE st1.q.resp,
+                                   !.rt = IF input.kind \in {"nodes", "tok"} THEN st1.rt \cup {input.peer} ELSE st1.rt]
+             ELSE IF isResp THEN [st1 EXCEPT !.rt = st1.rt \cup {input.peer}]   \* an accepted answer that belongs to no query
              ELSE st1
       putDone == st2.p.on /\ st2.p.started /\ ~Live(st2, st2.p.tids)
       putRes == IF st2.p.acks > 0 THEN "ok" ELSE "err"
@@ -107,7 +124,7 @@ Idle == LoopIter(TimeoutIn)
 Deliver(m) == /\ m.dir = "resp"
               /\ s' = [Tick(HandleApi(s), m) EXCEPT !.net = @ \ {m}]
 PeerAnswer(m) == /\ m.dir = "req"
-                 /\ \E k \in (IF m.kind = "store" THEN {"ack", "e"} ELSE IF m.kind = "get" THEN {"tok"} ELSE {"nodes"}) :
+                 /\ \E k \in (IF m.kind = "store" THEN {"ack", "e"} ELSE IF m.kind = "get" THEN {"tok", "val"} ELSE {"nodes"}) :
                       s' = [s EXCEPT !.net = (s.net \ {m}) \cup {[dir |-> "resp", tid |-> m.tid, peer |-> m.peer, kind |-> k]}]
 Lose(m) == s' = [s EXCEPT !.net = s.net \ {m}]
 Age == /\ \E i \in s.infl : i.age < MaxAge
